@@ -12,6 +12,7 @@
 
 #include "llvm/Support/CommandLine.h"
 
+#include <chrono>
 #include <fcntl.h>
 #include <fstream>
 #include <map>
@@ -24,8 +25,9 @@ static cll::opt<uint64_t> nseed("nseed", cll::init(1));
 static cll::opt<int> nthreads("nthreads", cll::init(1));
 static cll::opt<int> nphases("nphases", cll::init(1));
 static cll::opt<int> nmsgs("nmsgs", cll::desc("max messages per sender thread and phase"), cll::init(10));
-static cll::opt<int> nsizeclass("nsizeclass", cll::desc("0 tiny 1 around 1400 2 around 65536 3 mixed up to 3MB"), cll::init(0));
+static cll::opt<int> nsizeclass("nsizeclass", cll::desc("0 tiny 1 around 1400 2 around 65536 3 mixed up to 3MB 4 one stream per thread alternating multi-MB and tiny"), cll::init(0));
 static cll::opt<int> ntags("ntags", cll::init(2));
+static cll::opt<int> ngap("ngap", cll::desc("pause of up to this many microseconds after each send (PRF chosen)"), cll::init(0));
 static cll::opt<std::string> nout("nout", cll::init("nout"));
 static cll::opt<std::string> nshm("nshm", cll::init(""));
 
@@ -73,6 +75,13 @@ static std::vector<Msg> plan(unsigned hosts, unsigned s, int t, int p) {
     m.dst = (uint32_t)(h % hosts);
     m.tag = 1000 + p * 16 + (uint32_t)((h >> 16) % (uint64_t)ntags);
     m.len = pick_len(h >> 24);
+    if (nsizeclass == 4) {
+      // one (destination, tag) stream per sender thread in which large (rendezvous) messages are
+      // followed by tiny (eager) ones: the order within the stream is what is being checked
+      m.dst = (uint32_t)((s + 1 + (hosts > 2 ? t % (hosts - 1) : 0)) % hosts);
+      m.tag = 1000 + p * 16;
+      m.len = (i % 2 == 0) ? (uint32_t)(1000000 + (h >> 24) % 3500000) : (uint32_t)(1 + (h >> 24) % 64);
+    }
     v.push_back(m);
   }
   return v;
@@ -125,6 +134,12 @@ int main(int argc, char** argv) {
           fill[i] = (uint8_t)(ck >> (8 * (i % 8))) ^ (uint8_t)i;
         galois::runtime::gSerialize(b, fill);
         net.sendTagged(m.dst, m.tag, b);
+        if (ngap > 0) { // separate sends in time so that they are not aggregated into one transport message
+          uint64_t us = prf(nseed, me, tid, 7777, sq + m.len) % (uint64_t)(ngap + 1);
+          auto until  = std::chrono::steady_clock::now() + std::chrono::microseconds(us);
+          while (std::chrono::steady_clock::now() < until)
+            ;
+        }
       }
     });
     for (int t = 0; t < nthreads; ++t)
